@@ -98,6 +98,10 @@ CLAIMS["C12"] = ("exploration",
     "stateful PBT with recording probes around every decorator: per render cycle and sync column the returned widths must all equal the largest recomputed need over exactly the bars rendered in that cycle; plain decorators return their own need; returned text is the formatted text padded to that width; membership changes (add, remove, drop, pop, successor, cancel) in all three refresh modes",
     "needs are recomputed from W, the extra-space flag and go-runewidth widths of the text each decorator formatted; hangs are left to C01",
     "property-based testing (rapid) with an exact width model per cycle and column")
+CLAIMS["C18"] = ("exploration",
+    "stateful PBT over pop-completed scenarios (bars finishing in any order and in the same cycle, extender rows, text, no-pop bars, successors, buffers and ptys, three refresh regimes); the whole output is interpreted by the VT emulator and the final screen must hold every popped bar exactly once in its finished state, above the live bars and in finishing order; frame-by-frame order validity and render-call counts against the frame model",
+    "VT emulator and frame model are trusted base; finishing order and render counts are judged only for manual refresh (exact model); open finding C18-popped-bar-cut-by-height is excluded by construction",
+    "model-based stateful property testing (rapid) against a reference terminal interpreter and frame model")
 CLAIMS["C19"] = ("exploration",
     "differential PBT: scripted underlying readers/writers of all four dynamic types consumed through the proxy and bare by the same generated consumer; caller-visible results, underlying-visible calls, delivered bytes, Close counts, fast-path offer, bar accounting and moving-average samples compared",
     "the bare twin plays the same script; sample durations are bounded from below only",
